@@ -44,14 +44,20 @@ RULE = ("fn: generated source for signatures of 0-5 parameters (defaults on a su
         "factory, plain or postponed annotations); hand-written `class f(Function)` / `class f(B)` hierarchies "
         "(derived class overriding node_function, base used before or after it); function objects made by calling ONE generated "
         "factory def several times (same code object, own defaults and closure value), the earlier ones "
-        "wrapped first through the same entry point; several transformer nodes "
-        "made in one process from permuted inputs-to-dict specifications (name lists and full specs) or at "
+        "wrapped first through the same entry point; parameter / returned-variable / "
+        "spec names that are also attributes of the IO panels (items, labels, ready, connections, fetch, ...), all "
+        "channels observed by ITEM access, a single-output function node fed into a downstream node (oracle only); "
+        "defaults whose identity matters (sentinel objects, module-level lists compared with `is`); dataclasses "
+        "deriving, undecorated, from a dataclass or a node's .dataclass (added fields, changed defaults); "
+        "several transformer nodes made in one process from permuted inputs-to-dict specifications (name lists and full specs) or at "
         "neighbouring sizes, each checked against its own specification. Non-trivial = at least one step returns a value and the "
         "node has >=1 input; distinct = distinct case JSON")
 TRUSTED = ["harness renderer: writes the python source of the described function/dataclass; the fragments it "
            "records for every returned expression are compared with what CPython's ast reports on every case "
            "(a wrong fragment shows up as a model/implementation disagreement on the output labels)",
-           "pandas.DataFrame (tables are compared as column -> list)"]
+           "pandas.DataFrame (tables are compared as column -> list)",
+           "the downstream wiring of a single-output function node (Ident(v=node)()) is outside the model: it is "
+           "checked by the oracle only (model_view strips it from the compared observation)"]
 ASSUMPTIONS = ["values are ints, strs, None, tuples, lists, dicts with str keys; no two dict values of one case are "
                "equal up to key order only (python's dict == ignores order, the model's equality does not)",
                "generated functions are pure and total; they do not mutate their arguments",
@@ -442,20 +448,27 @@ def fn_source(case):
     return "\n".join(head + body) + "\n", frags
 
 
-def dc_source(case):
-    lines = []
-    if case.get("postponed"):
-        lines.append("from __future__ import annotations")
-    lines += ["import typing", "from dataclasses import dataclass, field", "", ""]
-    if case["via"] == "at":
-        lines.insert(-2, "from pyiron_workflow.nodes.transform import as_dataclass_node")
-        lines.append("@as_dataclass_node")
-    elif case.get("predecorated"):
-        lines.append("@dataclass")
-    lines.append(f"class {case['name']}:")
-    if not case["fields"]:
-        lines.append("    pass")
+def dc_fields(case):
+    """the fields of the dataclass the case describes: for a class deriving from a dataclass, python's
+    rule -- base fields first, a re-declared field keeps its place, new fields are appended"""
+    out = [dict(f) for f in (case.get("parent") or {"fields": []})["fields"]]
+    if not case.get("parent"):
+        return case["fields"]
     for f in case["fields"]:
+        for i, g in enumerate(out):
+            if g["name"] == f["name"]:
+                out[i] = f
+                break
+        else:
+            out.append(f)
+    return out
+
+
+def _field_lines(fields):
+    lines = []
+    if not fields:
+        lines.append("    pass")
+    for f in fields:
         t = f"    {f['name']}: {ann_src(f['type'])}"
         d = f["default"]
         if d[0] == "val":
@@ -463,6 +476,29 @@ def dc_source(case):
         elif d[0] == "fac":
             t += f" = field(default_factory=lambda: {lit_val(d[1])})"
         lines.append(t)
+    return lines
+
+
+def dc_source(case):
+    lines = []
+    if case.get("postponed"):
+        lines.append("from __future__ import annotations")
+    lines += ["import typing", "from dataclasses import dataclass, field", "", ""]
+    par = case.get("parent")
+    if case["via"] == "at" or (par and par.get("as_node")):
+        lines.insert(-2, "from pyiron_workflow.nodes.transform import as_dataclass_node")
+    base = ""
+    if par:                                 # the base: a real dataclass, or the dataclass of another node
+        lines.append("@as_dataclass_node" if par.get("as_node") else "@dataclass")
+        lines.append("class P:")
+        lines += _field_lines(par["fields"]) + ["", ""]
+        base = "(P.dataclass)" if par.get("as_node") else "(P)"
+    if case["via"] == "at":
+        lines.append("@as_dataclass_node")
+    elif case.get("predecorated"):
+        lines.append("@dataclass")
+    lines.append(f"class {case['name']}{base}:")       # undecorated unless said otherwise
+    lines += _field_lines(case["fields"])
     return "\n".join(lines) + "\n"
 
 
@@ -508,10 +544,45 @@ def obs_class(cls):
             [[k, enc_hint(h)] for k, h in pre["outputs"].items()]]
 
 
+def chan_obs(panel, label):
+    """one channel, reached by ITEM access under its label (what copy_io, replace, single-output wiring use)"""
+    from pyiron_workflow.channels import DataChannel
+    ch = panel[label]
+    if not isinstance(ch, DataChannel):
+        return [label, ["?", "not a channel"], ["?", type(ch).__name__]]
+    return [ch.label, enc_hint(ch.type_hint), enc_val(ch.value)]
+
+
 def obs_node(n):
-    return [[[c.label, enc_hint(c.type_hint), enc_val(c.value)] for c in n.inputs],
-            [[c.label, enc_hint(c.type_hint), enc_val(c.value)] for c in n.outputs],
+    return [[chan_obs(n.inputs, l) for l in n.inputs.labels],
+            [chan_obs(n.outputs, l) for l in n.outputs.labels],
             1 if n.failed else 0]
+
+
+_IDENT_SRC = "def ident(v):\n    w = v\n    return w\n"
+
+
+def wire_downstream(n):
+    """use the node as THE channel of its single output: feed it to a downstream identity node and pull that"""
+    from pyiron_workflow.nodes.function import as_function_node
+    mod = load_module(_IDENT_SRC)
+    if not hasattr(mod, "Ident"):
+        mod.Ident = as_function_node("w")(mod.ident)
+    try:
+        down = mod.Ident(v=n)
+        down.recovery = None
+        return ["ok", enc_val(down())]
+    except Exception as e:
+        return ["err", exc_name(e)]
+
+
+def model_view(case, obs):
+    """the part of the observation the model computes: the downstream wiring is checked by the oracle only"""
+    if case.get("kind") == "multi" and isinstance(obs, list) and len(obs) == len(case["cases"]):
+        return [model_view(c, o) for c, o in zip(case["cases"], obs)]
+    if isinstance(obs, list) and obs and isinstance(obs[-1], list) and obs[-1] and obs[-1][0] == "wire":
+        return obs[:-1]
+    return obs
 
 
 def split_args(op):
@@ -520,7 +591,7 @@ def split_args(op):
     return pos, kw
 
 
-def drive(make_class, make_instance, ops):
+def drive(make_class, make_instance, ops, wire=False):
     """the scenario shape shared by all families (mirrors Wrap.oscenario)"""
     import warnings
     with warnings.catch_warnings():
@@ -544,6 +615,8 @@ def drive(make_class, make_instance, ops):
             except Exception as e:
                 r = ["err", exc_name(e)]
             out.append([r, obs_node(n)])
+        if wire and len(out) > 2 and out[-1][0][0] == "ok" and len(n.outputs.labels) == 1:
+            out.append(["wire", wire_downstream(n)])
         return out
 
 
@@ -711,7 +784,7 @@ def _run_one(case):
         mk, inst = dc_objects(case)
     else:
         mk, inst = tf_objects(case)
-    return drive(mk, inst, case["ops"])
+    return drive(mk, inst, case["ops"], wire=(k == "fn"))
 
 
 def run_impl(case):
@@ -816,13 +889,18 @@ def model_term(case):
         return (f"(oscenario {none} (Ok (to_frame_class {cn(case['n'])} true)) "
                 f"(fun k => instantiate k {pos0c} {kw0c}) {rest})")
     if k == "dc":
-        fs = []
-        for f in case["fields"]:
-            d = f["default"]
-            dd = "FRequired" if d[0] == "req" else f"({'FDefault' if d[0] == 'val' else 'FFactory'} {val_coq(d[1])})"
-            t = hint_coq(f["type"])      # postponed annotations are resolved (typing.get_type_hints)
-            fs.append("{| fd_name := " + cs(f["name"]) + f"; fd_type := {t}; fd_default := {dd} |}}")
-        d = "{| dc_name := " + cs(case["name"]) + "; dc_fields := " + cl(fs) + " |}"
+        def fields_coq(fields):
+            fs = []
+            for f in fields:
+                d = f["default"]
+                dd = "FRequired" if d[0] == "req" else f"({'FDefault' if d[0] == 'val' else 'FFactory'} {val_coq(d[1])})"
+                t = hint_coq(f["type"])      # postponed annotations are resolved (typing.get_type_hints)
+                fs.append("{| fd_name := " + cs(f["name"]) + f"; fd_type := {t}; fd_default := {dd} |}}")
+            return cl(fs)
+        fl = fields_coq(case["fields"])
+        if case.get("parent"):
+            fl = f"(merge_fields {fields_coq(case['parent']['fields'])} {fl})"
+        d = "{| dc_name := " + cs(case["name"]) + "; dc_fields := " + fl + " |}"
         return f"(oscenario {none} (dataclass_class {d} true) (fun k => instantiate k {pos0c} {kw0c}) {rest})"
     return None
 
@@ -1095,7 +1173,13 @@ def oracle_fn(case, obs):
         if any(not admits_json(h, c) for h, c in zip(out_hints, comps)):
             return ("hint-failure",)
         return ("value", v, comps)
-    return oracle_steps(case, obs, names, hints, defaults, sig, call_ref)
+    v = oracle_steps(case, obs, names, hints, defaults, sig, call_ref)
+    if v is None and obs[-1][0] == "wire":
+        # the single-output node IS its output channel: a downstream node fed with it gets the stored result
+        last = obs[-2]
+        if obs[-1][1] != ["ok", last[0][1]]:
+            return f"wiring: a downstream node fed with the single-output node got {obs[-1][1]}, the node returned {last[0][1]}"
+    return v
 
 
 def _sig_of(names):
@@ -1159,7 +1243,7 @@ def oracle_tf(case, obs):
 
 
 def oracle_dc(case, obs):
-    fields = case["fields"]
+    fields = dc_fields(case)
     seen_default = False
     order_ok = True
     for f in fields:
@@ -1181,8 +1265,13 @@ def oracle_dc(case, obs):
     names = [f["name"] for f in fields]
     hints = {c[0]: c[1] for c in exp_in}
     # the reference: the dataclass python builds from the same source, called by python
-    src = dc_source({**case, "via": "plain", "predecorated": True})
+    ref_case = {**case, "via": "plain", "predecorated": True}
+    if case.get("parent"):
+        ref_case["parent"] = {**case["parent"], "as_node": False}
+    src = dc_source(ref_case)
     DC = getattr(load_module(src), case["name"])
+    if [f.name for f in dataclasses.fields(DC)] != names:
+        return f"oracle-crash: reference dataclass has fields {[f.name for f in dataclasses.fields(DC)]}, expected {names}"
     sig = inspect.signature(DC)
     defaults = {f["name"]: f["default"][1] for f in fields if f["default"][0] != "req"}
     bad_default = [x for x, v in defaults.items() if not admits_json(hints[x], v)]
@@ -1299,10 +1388,28 @@ def static_atoms(e, params):
     return ["tuple"] if e[0] == "t" else ["list"]
 
 
+_PANEL_NAMES: list = []
+
+
+def panel_names():
+    """legal parameter / returned-variable names that are also attributes of the IO panels (read off the real
+    classes, plus the instance attribute channel_dict)"""
+    if not _PANEL_NAMES:
+        import keyword
+        from pyiron_workflow.io import Inputs
+        from pyiron_workflow.mixin.injection import OutputsWithInjection
+        names = set(dir(Inputs)) | set(dir(OutputsWithInjection)) | {"channel_dict"}
+        _PANEL_NAMES.extend(sorted(a for a in names if a.isidentifier() and not a.startswith("_")
+                                   and not keyword.iskeyword(a) and a not in INIT_KEYWORDS + RUN_KEYWORDS))
+    return _PANEL_NAMES
+
+
 def gen_fn(rng, ctx=None):
     k = rng.choice([0, 1, 1, 2, 2, 2, 3, 3, 4, 5])
     pool = list(NAMES)
     r = rng.random()
+    if r > 0.88:
+        pool = list(panel_names())       # items, labels, ready, connections, fetch, to_value_dict, ...
     if r < 0.05:
         pool += ["fetch_input", "check_readiness", "raise_run_exceptions"]
     elif r < 0.08:
@@ -1579,7 +1686,7 @@ def gen_tf(rng):
         return {"kind": k, "n": n, "via": via, "ops": gen_ops(rng, names, {}, names)}
     if k == "todict":
         m = rng.choice([0, 1, 2, 3, 4, 5, 6])
-        names = rng.sample(NAMES + ["p", "q"], m)
+        names = rng.sample((NAMES + ["p", "q"]) if rng.random() < 0.85 else panel_names(), m)
         if rng.random() < 0.5:
             if names and rng.random() < 0.15:
                 names = names + [names[0]]
@@ -1659,8 +1766,24 @@ def gen_dc(rng, idx):
         fields.append({"name": nm, "type": t, "default": d})
     case = {"kind": "dc", "name": f"DC{idx % 7}", "fields": fields, "postponed": rng.random() < 0.08,
             "via": rng.choice(["at", "class", "function"]), "ops": []}
-    case["ops"] = gen_ops(rng, names, {f["name"]: f["type"][1] for f in fields},
-                          [f["name"] for f in fields if f["default"][0] == "req"])
+    if rng.random() < 0.3 and m >= 1:
+        # an inherited layout: the first fields live in a base dataclass (a real one, or another node's
+        # `.dataclass`); the UNDECORATED derived class adds the rest and re-declares some with other defaults
+        cut = rng.randint(1, m)
+        parent_fields = json.loads(json.dumps(fields[:cut]))
+        own = fields[cut:]
+        for f in parent_fields:
+            if f["default"][0] == "val" and rng.random() < 0.5:
+                v = f["default"][1]
+                own = own + [{**f, "default": ["val", ["i", v[1] + 30] if v[0] == "i" else v]}]
+            elif f["default"][0] == "fac" and rng.random() < 0.3:
+                own = own + [{**f, "default": ["fac", gen_value(rng, f["type"][1], 1)]}]
+        case["parent"] = {"fields": parent_fields, "as_node": rng.random() < 0.5}
+        case["fields"] = own
+        case["postponed"] = False
+    eff = dc_fields(case)
+    case["ops"] = gen_ops(rng, [f["name"] for f in eff], {f["name"]: f["type"][1] for f in eff},
+                          [f["name"] for f in eff if f["default"][0] == "req"])
     return case
 
 
@@ -1833,6 +1956,36 @@ def generate(ctx):
                  "ret": None, "declared": None, "validate": True, "via": via_, "postponed": False,
                  **({"base": None, "base_first": False} if via_ == "class" else {}),
                  "ops": [[[["i", 1]], []], [[], []], [[], [["fallback", ["s", "fb"]]]]]})
+    # inherited dataclass layouts: an undecorated class deriving from a dataclass / from a node's .dataclass,
+    # adding a field and a default factory and changing a default
+    I_ = lambda u: ["u", [u], "plain"]
+    for as_node_ in (False, True):
+        for via_ in ("class", "function", "at"):
+            add({"kind": "dc", "name": "DC1", "postponed": False, "via": via_,
+                 "parent": {"as_node": as_node_,
+                            "fields": [{"name": "a", "type": I_("int"), "default": ["req"]},
+                                       {"name": "b", "type": I_("int"), "default": ["val", ["i", 4]]}]},
+                 "fields": [{"name": "c", "type": I_("list"), "default": ["fac", ["l", [["i", 1]]]]},
+                            {"name": "b", "type": I_("int"), "default": ["val", ["i", 7]]},
+                            {"name": "d", "type": I_("str"), "default": ["val", ["s", "u"]]}],
+                 "ops": [[[["i", 1]], []], [[], []], [[], [["d", ["s", "v"]], ["c", ["l", []]]]]]})
+    # parameter and returned-variable names that are also attributes of the IO panels
+    for via_ in ("call", "function_node", "class"):
+        add({"kind": "fn", "params": [{"name": "items", "ann": ["u", ["list"], "plain"], "default": None},
+                                      {"name": "labels", "ann": None, "default": ["t", [["s", "a"], ["s", "b"]]]},
+                                      {"name": "ready", "ann": ["u", ["int"], "plain"], "default": ["i", 1]},
+                                      {"name": "channel_dict", "ann": None, "default": ["i", 5]}],
+             "body": [["single", ["p", "labels"]]],
+             "ret": None, "declared": None, "validate": True, "via": via_, "postponed": False,
+             **({"base": None, "base_first": False} if via_ == "class" else {}),
+             "ops": [[[["l", [["i", 1]]]], []], [[], []], [[], [["labels", ["i", 3]], ["channel_dict", ["i", 6]]]]]})
+    add({"kind": "fn", "params": [{"name": "fetch", "ann": None, "default": None},
+                                  {"name": "to_value_dict", "ann": None, "default": ["i", 2]}],
+         "body": [["tuple", [["p", "to_value_dict"], ["p", "fetch"]], 0]], "ret": None, "declared": None,
+         "validate": True, "via": "call", "postponed": False,
+         "ops": [[[], []], [[["i", 1]], []], [[], [["to_value_dict", ["i", 9]]]]]})
+    add({"kind": "todict", "spec": ["names", ["items", "labels", "connected"]], "via": "function",
+         "ops": [[[["i", 1], ["i", 2]], []], [[], [["connected", ["i", 3]]]]]})
     n_fac = ctx.n(90, 1000)
     target = len(cases) + n_fac
     while len(cases) < target:
